@@ -738,6 +738,9 @@ def flatten(self, *dims, **kwargs):
     if insert is None: 
         insert = ii  # by default, do not reshape
 
+    # the group cannot start beyond the last position that leaves room for it
+    insert = min(insert, self.ndim - n)
+
     # If dimensions do not follow each other, transpose first
     if dims != self.dims[insert:insert+len(dims)]:
 
